@@ -18,3 +18,23 @@ LEAVES = [
          kind='func', params={'variance': 'A', 'n_pattern': 'A', 'n_rdm': 'A'},
          none=['n_pattern', 'n_rdm'], ret='A'),
 ]
+
+_DB = {'variances_0': 'A', 'variances_1': 'A', 'variances_2': 'A', 'n_rdm': 'A', 'n_pattern': 'A'}
+LEAVES += [
+    # only one of the two counts passed: the plain formula must still be the one used
+    dict(name='dualBootstrapR', file='util/inference_util.py', func='_dual_bootstrap',
+         kind='func', params=dict(_DB), none=['n_pattern'], ret='A'),
+    dict(name='dualBootstrapP', file='util/inference_util.py', func='_dual_bootstrap',
+         kind='func', params=dict(_DB), none=['n_rdm'], ret='A'),
+    # bootstrap pair test: two-sided doubling and the (N-1)/N p + 1/N shrinkage
+    dict(name='bootTwoSided', file='util/inference_util.py', func='bootstrap_pair_tests',
+         kind='assign', target='proportions', nth=1, count=3,
+         params={'proportions': 'A'}, ret='A'),
+    dict(name='bootShrink', file='util/inference_util.py', func='bootstrap_pair_tests',
+         kind='assign', target='proportions', nth=2, count=3,
+         params={'proportions': 'A', 'len_evaluations': 'A'}, ret='A'),
+    # degrees of freedom of the fixed evaluation
+    dict(name='fixedDof', file='inference/evaluate.py', func='eval_fixed',
+         kind='assign', target='dof', nth=0, count=2,
+         params={'evaluations_shape_m1': 'Int'}, ret='Int'),
+]
